@@ -251,10 +251,12 @@ def reset_globals():
     gasol_asm.init()
 
 
-def local(fn, *args, timeout=20):
-    """run fn(*args) in this process with the tool's mutable module state reset first"""
+def local(fn, *args, timeout=20, reset=True):
+    """run fn(*args) in this process with the tool's mutable module state reset first
+    (reset=False keeps whatever earlier calls left behind: used by the history checks)"""
     local_init()
-    reset_globals()
+    if reset:
+        reset_globals()
     old = signal.signal(signal.SIGALRM, _on_alarm)
     signal.setitimer(signal.ITIMER_REAL, timeout, 1.0)
     t0 = time.process_time()
